@@ -168,6 +168,13 @@ func knownFor(c *core.Ctx, tr *traceResult) *core.Finding {
 		if (tr.Violated == "C04_NoSilentReuse" || tr.Violated == "C04_FailsWhenUncovered") && hasArm("expectFail") && viaRunGo {
 			return c.KnownFinding("H5-weather-load-errors-ignored")
 		}
+		// one file per year with a hole: WetterK stops at the hole and reports it, Run() goes on with what the arrays
+		// hold - the days of THAT year (whose file was not read to its end) get other records than their own
+		if tr.Violated == "C04_Record" && hasArm("expectFail") && strings.Contains(arms, " gap") && tr.Case.P.Weather.Layout == 0 && len(tr.Case.P.Weather.Gaps) > 0 {
+			if z, ok := tr.Event["zeit"].(float64); ok && gen.YearOfDay(int(z)) == gen.YearOfDay(tr.Case.P.Weather.Gaps[0]) {
+				return c.KnownFinding("H5-weather-load-errors-ignored")
+			}
+		}
 	}
 	return nil
 }
